@@ -24,6 +24,11 @@ def compile_query(q, tf, wrap=None):
             "tag": tf.TagQuery, "field": tf.FieldQuery}[attr]()
     if k == "noop":
         return base.noop()
+    for name in q.get("premaps", ()):
+        fn = catalog.PREMAPS[name]
+        if wrap is not None:
+            fn = wrap("map:" + name, fn)
+        base = base.map(fn)
     if "key" in q:
         base = base[q["key"]]
     for name in q.get("maps", ()):
@@ -75,6 +80,8 @@ def shape(q):
         s += q["op"]
     if q.get("maps"):
         s += "+map"
+    if q.get("premaps"):
+        s += "+premap"
     return s
 
 
